@@ -42,6 +42,7 @@ type Prog struct {
 	stateFunSorts map[string]string
 	globalMaps map[*ssa.Global][][2]*ssa.Const
 	finalFV    map[*ssa.FreeVar]bool
+	modStructs map[string][]string
 }
 
 func goEnv() []string {
@@ -73,7 +74,7 @@ func LoadProg(repo, verif string) (*Prog, error) {
 		immutable: map[*ssa.Global]bool{}, globalInit: map[*ssa.Global]ssa.Value{},
 		writesMemo: map[*ssa.Function]map[string]string{}, writesBusy: map[*ssa.Function]bool{},
 		implMemo: map[string][]*ssa.Function{}, addrFields: map[string]bool{},
-		preludeMods: map[string]string{}, ghostComps: map[string]string{}, modDeps: map[string][]string{}, knownComps: map[string]string{}, stateFuns: map[string][]string{}, stateFunSorts: map[string]string{}, globalMaps: map[*ssa.Global][][2]*ssa.Const{}}
+		preludeMods: map[string]string{}, ghostComps: map[string]string{}, modDeps: map[string][]string{}, knownComps: map[string]string{}, stateFuns: map[string][]string{}, stateFunSorts: map[string]string{}, modStructs: map[string][]string{}, globalMaps: map[*ssa.Global][][2]*ssa.Const{}}
 	for _, p := range spkgs {
 		if p != nil {
 			P.pkgs = append(P.pkgs, p)
@@ -374,6 +375,9 @@ func (P *Prog) loadPreludeModules() error {
 			if strings.HasPrefix(line, "; requires:") {
 				P.modDeps[name] = strings.Fields(strings.TrimPrefix(line, "; requires:"))
 			}
+			if strings.HasPrefix(line, "; struct:") {
+				P.modStructs[name] = append(P.modStructs[name], strings.Fields(strings.TrimPrefix(line, "; struct:"))...)
+			}
 			if strings.HasPrefix(line, "; statefun:") {
 				fs := strings.Fields(strings.TrimPrefix(line, "; statefun:"))
 				if len(fs) >= 1 {
@@ -398,6 +402,32 @@ func (P *Prog) loadPreludeModules() error {
 		}
 	}
 	return nil
+}
+
+// usedModules: transitive closure of the modules in uses, dependency order.
+func (P *Prog) usedModules(uses map[string]bool) []string {
+	var order []string
+	seen := map[string]bool{}
+	var visit func(m string)
+	visit = func(m string) {
+		if seen[m] {
+			return
+		}
+		seen[m] = true
+		for _, d := range P.modDeps[m] {
+			visit(d)
+		}
+		order = append(order, m)
+	}
+	ms := []string{}
+	for m := range uses {
+		ms = append(ms, m)
+	}
+	sort.Strings(ms)
+	for _, m := range ms {
+		visit(m)
+	}
+	return order
 }
 
 func (P *Prog) preludeText(uses map[string]bool) string {
